@@ -1039,53 +1039,8 @@ func (c *Ctx) breakerSettingsFromConfig() {
 		"Interval":         "IntervalSeconds",
 		"Timeout":          "TimeoutSeconds",
 	}
-	// configuration fields a value is computed from
-	var origins func(v ssa.Value, seen map[ssa.Value]bool, out map[string]bool, d int)
-	origins = func(v ssa.Value, seen map[ssa.Value]bool, out map[string]bool, d int) {
-		if v == nil || seen[v] || d > 14 {
-			return
-		}
-		seen[v] = true
-		switch x := v.(type) {
-		case *ssa.UnOp:
-			if fa, ok := x.X.(*ssa.FieldAddr); ok {
-				if fr, ok := fieldRefOf(fa); ok && fr.Struct != nil && QualType(fr.Struct) == "config.CircuitBreakerConfig" {
-					out[fr.Name] = true
-					return
-				}
-			}
-			if a, ok := x.X.(*ssa.Alloc); ok && a.Referrers() != nil {
-				for _, r := range *a.Referrers() {
-					if st, ok := r.(*ssa.Store); ok && st.Addr == ssa.Value(a) {
-						origins(st.Val, seen, out, d+1)
-					}
-				}
-			}
-			origins(x.X, seen, out, d+1)
-		case *ssa.Field:
-			if fr, ok := fieldRefOf(x); ok && fr.Struct != nil && QualType(fr.Struct) == "config.CircuitBreakerConfig" {
-				out[fr.Name] = true
-				return
-			}
-		case *ssa.Convert:
-			origins(x.X, seen, out, d+1)
-		case *ssa.ChangeType:
-			origins(x.X, seen, out, d+1)
-		case *ssa.BinOp:
-			origins(x.X, seen, out, d+1)
-			origins(x.Y, seen, out, d+1)
-		case *ssa.Phi:
-			for _, e := range x.Edges {
-				origins(e, seen, out, d+1)
-			}
-		case *ssa.Extract:
-			origins(x.Tuple, seen, out, d+1)
-		case *ssa.Call:
-			// a conversion helper (saturating cast, seconds → duration): what it is given
-			for _, a := range x.Call.Args {
-				origins(a, seen, out, d+1)
-			}
-		}
+	origins := func(v ssa.Value, seen map[ssa.Value]bool, out map[string]bool, d int) {
+		configOrigins(v, "config.CircuitBreakerConfig", seen, out, d)
 	}
 	got := map[string][]string{} // settings field → problems
 	seenField := map[string]bool{}
@@ -1149,4 +1104,52 @@ func (c *Ctx) breakerSettingsFromConfig() {
 		}
 	}
 	c.Floor("breaker-settings-from-config", n, 5, "breaker settings")
+}
+
+// configOrigins collects the fields of the configuration struct `cfgStruct` that a value is computed
+// from (through conversions, arithmetic, φs, local cells and the arguments of helper calls).
+func configOrigins(v ssa.Value, cfgStruct string, seen map[ssa.Value]bool, out map[string]bool, d int) {
+	if v == nil || seen[v] || d > 14 {
+		return
+	}
+	seen[v] = true
+	switch x := v.(type) {
+	case *ssa.UnOp:
+		if fa, ok := x.X.(*ssa.FieldAddr); ok {
+			if fr, ok := fieldRefOf(fa); ok && fr.Struct != nil && QualType(fr.Struct) == cfgStruct {
+				out[fr.Name] = true
+				return
+			}
+		}
+		if a, ok := x.X.(*ssa.Alloc); ok && a.Referrers() != nil {
+			for _, r := range *a.Referrers() {
+				if st, ok := r.(*ssa.Store); ok && st.Addr == ssa.Value(a) {
+					configOrigins(st.Val, cfgStruct, seen, out, d+1)
+				}
+			}
+		}
+		configOrigins(x.X, cfgStruct, seen, out, d+1)
+	case *ssa.Field:
+		if fr, ok := fieldRefOf(x); ok && fr.Struct != nil && QualType(fr.Struct) == cfgStruct {
+			out[fr.Name] = true
+			return
+		}
+	case *ssa.Convert:
+		configOrigins(x.X, cfgStruct, seen, out, d+1)
+	case *ssa.ChangeType:
+		configOrigins(x.X, cfgStruct, seen, out, d+1)
+	case *ssa.BinOp:
+		configOrigins(x.X, cfgStruct, seen, out, d+1)
+		configOrigins(x.Y, cfgStruct, seen, out, d+1)
+	case *ssa.Phi:
+		for _, e := range x.Edges {
+			configOrigins(e, cfgStruct, seen, out, d+1)
+		}
+	case *ssa.Extract:
+		configOrigins(x.Tuple, cfgStruct, seen, out, d+1)
+	case *ssa.Call:
+		for _, a := range x.Call.Args {
+			configOrigins(a, cfgStruct, seen, out, d+1)
+		}
+	}
 }
